@@ -1392,6 +1392,9 @@ func (r *Run) Execute() {
 	}
 	runKey := uint64(t.Draw(1<<30, "run.selectkey")) + 1
 	r.s = NewSim(runKey)
+	r.s.selectGates.Store(true)
+	prevSim := curSim.Swap(r.s)
+	defer curSim.Store(prevSim)
 	r.s.keepLog = 400
 	r.conc = r.p.Concurrent
 	r.s.quiet = r.conc
